@@ -128,6 +128,145 @@ Fixpoint replay (fuel : nat) (acts : list sx) (r : rs) (snaps : list sx) : rs * 
       end
   end.
 
+(* ------------------------------------------------------------------------------------------------------------
+   kinds 6/7: AsyncTLSStreamTransport.send_all under concurrent senders (Conc.TlsSend); same script language; a task
+   program is a list of plaintexts.  output = L [L snapshots; L [B plaintext carried by each transport.send_all call]],
+   snapshot = L [A number_of_transport_calls; L statuses] (status 2 = suspended in the underlying transport.send_all) *)
+From EN Require Import Conc.TlsSend.
+
+Record xs := mkXs {
+  q_st : tls; q_ready : list tid; q_created : list bool; q_cancel : list bool; q_outcome : list (option bool); q_bad : bool
+}.
+
+Definition x_enqueue_woken (s : tls) (ready : list tid) : list tid :=
+  fold_left (fun rd w => if w_set w && negb (mem_tid (w_tid w) rd) then rd ++ [w_tid w] else rd)
+            (fl_waiters (x_lock s)) ready.
+
+Definition x_label_for (t : tid) (r : xs) : option xlabel :=
+  match nth_error (x_tasks (q_st r)) t with
+  | Some (XDone _) | None | Some XRun => None
+  | Some ts =>
+      if nth t (q_cancel r) false then Some (TCancel t)
+      else match ts with
+           | XNew _ => Some (TStart t)
+           | XWait _ => Some (TResume t)
+           | XFlush _ => match nth t (q_outcome r) None with
+                         | Some true => Some (TWrite t)
+                         | Some false => Some (TFail t)
+                         | None => None
+                         end
+           | _ => None
+           end
+  end.
+
+Definition x_proc1 (r : xs) : xs :=
+  match q_ready r with
+  | [] => r
+  | t :: rd =>
+      match x_label_for t r with
+      | None => mkXs (q_st r) rd (q_created r) (q_cancel r) (q_outcome r) true
+      | Some l =>
+          match x_next (q_st r) l with
+          | None => mkXs (q_st r) rd (q_created r) (q_cancel r) (q_outcome r) true
+          | Some s' => mkXs s' (x_enqueue_woken s' rd) (q_created r) (upd t false (q_cancel r)) (upd t None (q_outcome r)) (q_bad r)
+          end
+      end
+  end.
+
+Fixpoint x_proc_n (n : nat) (r : xs) : xs := match n with 0 => r | S k => x_proc_n k (x_proc1 r) end.
+
+Fixpoint x_settle (fuel : nat) (r : xs) : xs :=
+  match fuel with
+  | 0 => mkXs (q_st r) (q_ready r) (q_created r) (q_cancel r) (q_outcome r) true
+  | S f => match q_ready r with [] => r | _ => x_settle f (x_proc_n (length (q_ready r)) r) end
+  end.
+
+Definition x_push (t : tid) (r : xs) : list tid := if mem_tid t (q_ready r) then q_ready r else q_ready r ++ [t].
+Definition x_is_done (t : tid) (r : xs) : bool :=
+  match nth_error (x_tasks (q_st r)) t with Some (XDone _) => true | _ => false end.
+Definition x_is_flushing (t : tid) (r : xs) : bool :=
+  match nth_error (x_tasks (q_st r)) t with Some (XFlush _) => true | _ => false end.
+
+Definition x_act_start (t : tid) (r : xs) : xs :=
+  if nth t (q_created r) true then r
+  else mkXs (q_st r) (x_push t r) (upd t true (q_created r)) (q_cancel r) (q_outcome r) (q_bad r).
+Definition x_act_gate (ok : bool) (t : tid) (r : xs) : xs :=
+  if x_is_flushing t r && negb (nth t (q_cancel r) false)
+     && match nth t (q_outcome r) None with None => true | Some _ => false end
+  then mkXs (q_st r) (x_push t r) (q_created r) (q_cancel r) (upd t (Some ok) (q_outcome r)) (q_bad r)
+  else r.
+Definition x_act_cancel (t : tid) (r : xs) : xs :=
+  if nth t (q_created r) false && negb (x_is_done t r) && negb (nth t (q_cancel r) false)
+  then mkXs (q_st r) (x_push t r) (q_created r) (upd t true (q_cancel r)) (q_outcome r) (q_bad r)
+  else r.
+
+Definition x_status (n : nat) (r : xs) (ts : xstate) : Z :=
+  match ts with
+  | XNew _ => if nth n (q_created r) false then 1 else 0
+  | XRun => 1
+  | XWait _ => 1
+  | XFlush _ => 2
+  | XDone c => c
+  end%Z.
+Fixpoint x_statuses (n : nat) (r : xs) (ts : list xstate) : list sx :=
+  match ts with [] => [] | x :: ts' => A (x_status n r x) :: x_statuses (S n) r ts' end.
+Definition x_snapshot (r : xs) : sx :=
+  L [of_nat (length (x_calls (q_st r))); L (x_statuses 0 r (x_tasks (q_st r)))].
+
+Fixpoint x_replay (fuel : nat) (acts : list sx) (r : xs) (snaps : list sx) : xs * list sx :=
+  match acts with
+  | [] => (r, rev snaps)
+  | a :: acts' =>
+      match a with
+      | L [A 0%Z; A t] => x_replay fuel acts' (x_act_start (Z.to_nat t) r) snaps
+      | L [A 1%Z; A t] => x_replay fuel acts' (x_act_gate true (Z.to_nat t) r) snaps
+      | L [A 2%Z; A t] => x_replay fuel acts' (x_act_gate false (Z.to_nat t) r) snaps
+      | L [A 3%Z; A t] => x_replay fuel acts' (x_act_cancel (Z.to_nat t) r) snaps
+      | L [A 4%Z] => let r' := x_proc_n (length (q_ready r)) r in x_replay fuel acts' r' (x_snapshot r' :: snaps)
+      | L [A 5%Z] => let r' := x_settle fuel r in x_replay fuel acts' r' (x_snapshot r' :: snaps)
+      | _ => (mkXs (q_st r) (q_ready r) (q_created r) (q_cancel r) (q_outcome r) true, rev snaps)
+      end
+  end.
+
+Definition run_tls (pr : sx) (acts : list sx) : sx :=
+  do progs <- as_list_of (as_list_of as_bytes) pr;
+  let n := length progs in
+  let fuel := fold_right (fun p k => 3 * S (length p) + k) 8 progs in
+  let r0 := mkXs (tls_init progs) [] (repeat false n) (repeat false n) (repeat None n) false in
+  let '(r, snaps) := x_replay fuel acts r0 [] in
+  if q_bad r || x_crashed (q_st r) then bad_input
+  else L [L snaps; L (map B (rev (x_calls (q_st r))))].
+
+(* ------------------------------------------------------------------------------------------------------------
+   kinds 8/9: blocking TCPNetworkClient / UDPNetworkClient with real threads.  Which waiting thread gets
+   threading.Lock next is the operating system's choice, so only schedule-independent observables are compared: once
+   every send has been allowed to finish, the peer has received exactly the packets of the started threads, whole (the
+   harness parses the stream / collects the datagrams and sorts them).  output = L [L sorted packets; L statuses] *)
+Fixpoint bytes_leb (a b : bytes) : bool :=
+  match a, b with
+  | [], _ => true
+  | _ :: _, [] => false
+  | x :: a', y :: b' => if N.ltb x y then true else if N.ltb y x then false else bytes_leb a' b'
+  end.
+Fixpoint insert_sorted (x : bytes) (l : list bytes) : list bytes :=
+  match l with
+  | [] => [x]
+  | y :: r => if bytes_leb x y then x :: l else y :: insert_sorted x r
+  end.
+Definition sort_bytes (l : list bytes) : list bytes := fold_right insert_sorted [] l.
+
+Fixpoint started_of (n : nat) (acts : list sx) : list bool :=
+  match acts with
+  | [] => repeat false n
+  | L [A 0%Z; A t] :: r => upd (Z.to_nat t) true (started_of n r)
+  | _ :: r => started_of n r
+  end.
+
+Definition run_threads (progs : list (list packet)) (acts : list sx) : sx :=
+  let st0 := started_of (length progs) acts in
+  let pk := flat_map (fun x => if (fst x : bool) then map pkt_bytes (snd x) else []) (combine st0 progs) in
+  L [L (map B (sort_bytes pk)); L (map (fun b : bool => A (if b then 10 else 0)%Z) st0)].
+
 Definition as_packet (x : sx) : option packet := as_list_of as_bytes x.
 Definition as_prog (x : sx) : option (list packet) := as_list_of as_packet x.
 
@@ -135,6 +274,9 @@ Definition prog_size (pr : list packet) : nat := fold_right (fun p n => S (S (le
 
 Definition run (i : sx) : sx :=
   match i with
+  | L (A 6%Z :: pr :: L acts :: _) | L (A 7%Z :: pr :: L acts :: _) => run_tls pr acts
+  | L (A 8%Z :: pr :: L acts :: _) | L (A 9%Z :: pr :: L acts :: _) =>
+      do progs <- as_list_of as_prog pr; run_threads progs acts
   | L (A kind :: pr :: L acts :: _) =>
       do progs <- as_list_of as_prog pr;
       let n := length progs in
